@@ -1,8 +1,9 @@
 """C19 - unknown prepared statements are transparently re-prepared.
 
 Monitor: the real Cluster/Session/pool/Connection/ResponseFuture stack runs in the deterministic world against 1-3
-scripted wire-level nodes (protocol v3/v4 and DSE v2 = 0x42, the keyspace-carrying PREPARE variant the scripted node
-can speak; v5 needs segment framing, which it cannot).  A statement is prepared through session.prepare() (the node's
+scripted wire-level nodes (protocol v3, v4, DSE v1 = 0x41 - which, like v3/v4, does NOT carry a keyspace in PREPARE - and
+DSE v2 = 0x42, the keyspace-carrying PREPARE variant the scripted node can speak; v5/v6 need segment framing, which it
+cannot).  A statement is prepared through session.prepare() (the node's
 statement id is md5(keyspace NUL query), so it depends on the connection keyspace exactly like a real node's), then
 executed; the first host of the scripted plan answers EXECUTE with UNPREPARED.  The PREPARE that follows is answered
 with {same id, a different id, an error, connection reset/close, silence}; the re-sent EXECUTE with rows / void /
@@ -113,7 +114,7 @@ def run_history(seed):
     random.seed(seed)
     n = rng.choice([1, 2, 2, 3])
     addrs = ['127.0.0.%d' % (i + 1) for i in range(n)]
-    proto = rng.choice([3, 4, 4, 4, 0x42, 0x42])
+    proto = rng.choice([3, 4, 4, 4, 0x41, 0x41, 0x42, 0x42])      # v3, v4, DSE v1 (no keyspace in PREPARE), DSE v2 (keyspace in PREPARE)
     carries_ks = proto == 0x42
     ch = W.RandomChooser(random.Random(seed * 19 + 1), p_time=0.0, p_preempt=rng.choice([0.0, 0.0, 0.1, 0.3]))
     env = SimEnv(W.PrefixChooser([]), addresses=addrs)
@@ -288,7 +289,7 @@ def run_late_history(seed):
     variant = rng.choice(['two-flow', 'two-flow', 'two-flow', 'timeout'])
     n = rng.choice([2, 3]) if variant == 'two-flow' else rng.choice([1, 2])
     addrs = ['127.0.0.%d' % (i + 1) for i in range(n)]
-    proto = rng.choice([3, 4, 4, 0x42])
+    proto = rng.choice([3, 4, 4, 0x41, 0x42])
     ch = W.RandomChooser(random.Random(seed * 23 + 9), p_time=0.0, p_preempt=rng.choice([0.0, 0.0, 0.1, 0.3]))
     env = SimEnv(W.PrefixChooser([]), addresses=addrs)
     plan = Plan()
@@ -519,7 +520,7 @@ def run(ctx):
     ctx.rule = ("a case is one prepared-statement execution in a seeded history: (protocol, plan arrangement over 1-3 hosts, keyspace scenario, "
                 "answer to the PREPARE, answers to the EXECUTEs); distinct by that tuple; every case is non-trivial (the first EXECUTE is always "
                 "answered UNPREPARED)")
-    ctx.assume("protocol v5 is not generated (the scripted node does not speak segment framing); DSE v2 (0x42) carries the keyspace in PREPARE "
+    ctx.assume("protocol v5 / v6 are not generated (the scripted node does not speak segment framing); DSE v1 (0x41) and DSE v2 (0x42) are; DSE v2 carries the keyspace in PREPARE "
                "exactly like v5 and stands in for it")
     ctx.assume("an ERROR answer to the re-PREPARE fails the request with that error (what the driver documents in _execute_after_prepare); "
                "a connection lost during the re-PREPARE moves the request to the next host of the plan")
@@ -562,6 +563,7 @@ def run(ctx):
             ctx.count("keyspace_scenario_" + q['keyspace_scenario'])
             if q['proto'] == 0x42:
                 ctx.count("histories_on_keyspace_carrying_protocol")
+            ctx.count("histories_protocol_0x%02x" % q['proto'])
             if q.get('late'):
                 ctx.count("late_prepare_answer_histories_judged" if q['situation_reached'] else "late_prepare_answer_situation_not_reached")
             if len(ctx.samples) < 5 and len(q['node_trace']) >= 3:
@@ -576,4 +578,5 @@ def run(ctx):
     ctx.floor_counters = {"histories": 150, "reprepares_observed": 100, "executes_resent_after_reprepare": 40, "outcome_mismatch": 15,
                           "outcome_ok": 20, "outcome_prepare-error": 10, "outcome_timeout": 5, "outcome_valueerror": 5, "outcome_nohost": 3,
                           "histories_on_keyspace_carrying_protocol": 20, "keyspace_scenario_param": 3,
-                          "late_prepare_answer_histories_judged": 20, "executed_statement_not_the_object_in_the_cluster_cache": 30}
+                          "late_prepare_answer_histories_judged": 20, "executed_statement_not_the_object_in_the_cluster_cache": 30,
+                          "histories_protocol_0x41": 20, "histories_protocol_0x03": 10, "histories_protocol_0x04": 20}
